@@ -87,6 +87,9 @@ def gen_cell(g, k, tier):
             cfg["opts"] = {"adaptive": False, "n_steps": 8}
         else:
             cfg["opts"] = {"adaptive": True, "target_efficiency": 0.6}
+    if sampler in ("smc", "emcee_smc") and k % 5 == 3:
+        # final enlargement: the returned (larger or smaller) set must still be a sample of the posterior
+        cfg["opts"]["n_final_samples"] = int(N * (2 if k % 2 else 0.5))
     cfg["leak"] = leak
     cfg["reuse_sampler"] = bool(sampler in ("smc", "emcee_smc") and k % 4 == 1)
     c0 = t.coords[0]
